@@ -87,6 +87,11 @@ GROUPS["bvd_edit"]["features"] = "#![feature(allocator_api)]"
 GROUPS["bvd_slice"] = G("bvd_slice", BVD_PRELUDE + ["slice_lemmas.rs"], BVD_BASE + stub(BVD_CORE) + verify(["bvd.copy_range"]))
 GROUPS["bvd_slice"]["features"] = "#![feature(allocator_api)]"
 
+BVD_DEFAULTS = [u.replace("bvf.", "bvd.") for u in BVF_DEFAULTS]
+BVD_EDIT = ["bvd.resize", "bvd.ones", "bvd.is_zero"]
+GROUPS["bvd_defaults"] = G("bvd_defaults", BVD_PRELUDE, BVD_BASE + stub(BVD_CORE + BVD_COUNT + BVD_EDIT + ["bvd.copy_range"]) + verify(BVD_DEFAULTS))
+GROUPS["bvd_defaults"]["features"] = "#![feature(allocator_api)]"
+
 # -------------------------------------------------------------------------------------------------
 # property -> jobs
 TYPES6 = ["u8", "u16", "u32", "u64", "u128", "usize"]
@@ -107,29 +112,37 @@ def jobs(group, words, extra=None):
 W4 = ["u8", "u16", "u32", "u64"]
 WQ = ["u64", "u8"]
 
+U64 = {"I": "u64"}
+def dshift(amounts):
+    return [("bvd_shift", {"I": "u64", "T": t}) for t in amounts]
+
 PROPS["C05"] = {
-    "quick": shifts_jobs(["u64"], TYPES6) + shifts_jobs(["u8"], ["u8", "u128"]) + jobs("bvf_misc", WQ),
-    "thorough": shifts_jobs(W4, TYPES6) + jobs("bvf_misc", W4),
+    "quick": shifts_jobs(["u64"], TYPES6) + shifts_jobs(["u8"], ["u8", "u128"]) + jobs("bvf_misc", WQ) + dshift(["u8", "u64", "u128"]) + [("bvd_misc", U64)],
+    "thorough": shifts_jobs(W4, TYPES6) + jobs("bvf_misc", W4) + dshift(TYPES6) + [("bvd_misc", U64)],
 }
 PROPS["C06"] = {
-    "quick": jobs("bvf_rot", WQ),
-    "thorough": jobs("bvf_rot", W4),
+    "quick": jobs("bvf_rot", WQ) + [("bvd_rot", U64)],
+    "thorough": jobs("bvf_rot", W4) + [("bvd_rot", U64)],
 }
 PROPS["C16"] = {
-    "quick": jobs("bvf_count", WQ) + jobs("bvf_defaults", WQ) + jobs("int_prims", WQ),
-    "thorough": jobs("bvf_count", W4) + jobs("bvf_defaults", W4) + jobs("int_prims", W4),
+    "quick": jobs("bvf_count", WQ) + jobs("bvf_defaults", WQ) + jobs("int_prims", WQ) + [("bvd_count", U64), ("bvd_edit", U64), ("bvd_defaults", U64)],
+    "thorough": jobs("bvf_count", W4) + jobs("bvf_defaults", W4) + jobs("int_prims", W4) + [("bvd_count", U64), ("bvd_edit", U64), ("bvd_defaults", U64)],
 }
 PROPS["C08"] = {
-    "quick": jobs("bvf_slice", WQ) + jobs("bvf_defaults", WQ),
-    "thorough": jobs("bvf_slice", W4) + jobs("bvf_defaults", W4),
+    "quick": jobs("bvf_slice", WQ) + jobs("bvf_defaults", WQ) + [("bvd_slice", U64), ("bvd_defaults", U64)],
+    "thorough": jobs("bvf_slice", W4) + jobs("bvf_defaults", W4) + [("bvd_slice", U64), ("bvd_defaults", U64)],
 }
 PROPS["C07"] = {
-    "quick": jobs("bvf_core", WQ) + jobs("bvf_defaults", WQ),
-    "thorough": jobs("bvf_core", W4) + jobs("bvf_defaults", W4),
+    "quick": jobs("bvf_core", WQ) + jobs("bvf_defaults", WQ) + [("bvd_core", U64), ("bvd_edit", U64), ("bvd_defaults", U64)],
+    "thorough": jobs("bvf_core", W4) + jobs("bvf_defaults", W4) + [("bvd_core", U64), ("bvd_edit", U64), ("bvd_defaults", U64)],
 }
 PROPS["C19"] = {
     "quick": jobs("bvf_core", WQ) + jobs("bvf_defaults", WQ) + jobs("bvf_slice", WQ),
     "thorough": jobs("bvf_core", W4) + jobs("bvf_defaults", W4) + jobs("bvf_slice", W4),
+}
+PROPS["C18"] = {
+    "quick": [("bvd_core", U64), ("bvd_edit", U64), ("bvd_defaults", U64)],
+    "thorough": [("bvd_core", U64), ("bvd_edit", U64), ("bvd_defaults", U64)],
 }
 
 # -------------------------------------------------------------------------------------------------
@@ -147,8 +160,8 @@ MANIFEST_TEXT["C05"] = dict(
           "shl_in/shr_in, by-value/by-reference wrapper forms, u128/usize words. " + TRUST_NOTE),
 )
 
-COVER_BVF = "Covered so far: the Bvf<u8|u16|u32|u64, N> implementation (symbolic N, all lengths and values, dev and release expansions). "
-TODO_NOTE = "Not yet under contract (so a change there is NOT detected by this check yet): the Bvd and Bv implementations of the same operations, u128/usize word types"
+COVER_BVF = "Covered so far: the Bvf<u8|u16|u32|u64, N> implementation (symbolic N) and the Bvd implementation (symbolic word count, spare capacity included), all lengths and values, dev and release expansions. "
+TODO_NOTE = "Not yet under contract (so a change there is NOT detected by this check yet): the Bv (auto) dispatch layer, u128/usize word types"
 MANIFEST_TEXT["C05"]["note"] = (COVER_BVF + "Units: ShlAssign/ShrAssign<T> for all six T, shl_in, shr_in. " + TODO_NOTE + ", the by-value/by-reference wrapper forms. " + TRUST_NOTE)
 MANIFEST_TEXT["C06"] = dict(
     text=("Proof: the real bodies of Bvf::rotl / Bvf::rotr are verified against `bit t of result == bit (t+n-k) mod n (resp. (t+k) mod n) of self`, "
@@ -169,3 +182,9 @@ MANIFEST_TEXT["C19"] = dict(
     text=("Proof, both build profiles: every verified Bvf unit establishes wf (len <= capacity, storage beyond len zero); zeros/ones/push/resize/sign_extend/repeat carry "
           "`panics_if would exceed capacity` - every explicit panic site is reachable only under that condition and returning implies its negation - in the dev AND the release expansion."),
     note=COVER_BVF + "Not yet under contract: from_bytes/from_binary/from_hex/read/TryFrom capacity errors, append/prepend/insert/extend, the debug-only index asserts of get/set/copy_range as a separate dev-profile instance. " + TRUST_NOTE)
+
+MANIFEST_TEXT["C18"] = dict(
+    text=("Proof: Bvd::{with_capacity,reserve,shrink_to_fit,capacity,push,pop,resize,zeros,ones} are verified against contracts that keep every bit and the length, "
+          "state the resulting word count exactly (capacity >= len + k after reserve; shrink_to_fit leaves exactly the words of a fresh vector), preserve wf (len <= capacity, "
+          "spare words zero), and contain no reachable explicit panic (no capacity failure) under A-size."),
+    note="Covered so far: Bvd. Not yet under contract: Bv (inline/heap switching), append/prepend growth paths. " + TRUST_NOTE)
